@@ -68,6 +68,7 @@ func GenDAG(r *rand.Rand, id string, o GenOpts) *vexec.CaseSpec {
 			s.PrecondUnmet = r.Intn(2) == 0
 			s.PrecondN = 1 + r.Intn(3)
 			s.PrecondBadAt = r.Intn(s.PrecondN)
+			s.PrecondEmpty = r.Intn(4) == 0
 		}
 		spec.Steps = append(spec.Steps, s)
 	}
